@@ -31,6 +31,7 @@ def cases(tier):
     C.append(("Uniform/default(parameter-dependent Sigmoid)", tfd.Uniform, dict(low=-1.0, high=2.0), ("default",), 0.5, ["var", "auto"]))
     C.append(("InverseGamma/default", tfd.InverseGamma, dict(concentration=2.0, scale=0.5), ("default",), 1.3, ["auto"]))
     C.append(("HalfNormal/Exp", tfd.HalfNormal, dict(scale=1.5), ("instance", lambda: tfb.Exp()), 0.8, ["var"]))
+    C.append(("Gamma vector (2,), per_obs=False / Exp", tfd.Gamma, dict(concentration=2.0, rate=0.5), ("instance", lambda: tfb.Exp()), (1.3, 0.6), ["var", "auto-default"]))
     if tier == "thorough":
         C.append(("Gamma/Exp", tfd.Gamma, dict(concentration=2.0, rate=0.5), ("instance", lambda: tfb.Exp()), 1.3, ["var", "builder"]))
         C.append(("HalfCauchy/Softplus", tfd.HalfCauchy, dict(loc=0.0, scale=25.0), ("instance", lambda: tfb.Softplus()), 1.3, ["var"]))
@@ -42,7 +43,11 @@ def cases(tier):
 def build(label, D, params, bij, v0, entry):
     import liesel.model as lsl
     pv = {k: lsl.Var(v, name=f"p_{k}") for k, v in params.items()}
-    x = lsl.param(v0, lsl.Dist(D, **pv), name="x")
+    vec = isinstance(v0, tuple)
+    dist = lsl.Dist(D, **pv)
+    if vec:
+        dist.per_obs = False
+    x = lsl.param(jnp.asarray(v0) if vec else v0, dist, name="x")
     bvars = {}
     gb = lsl.GraphBuilder()
     if bij[0] == "instance":
@@ -55,7 +60,7 @@ def build(label, D, params, bij, v0, entry):
         bvars = {f"b_arg{i}": a for i, a in enumerate(bij[2])} | {f"b_{k}": v for k, v in bij[3].items()}
     else:
         target, args, kwargs = None, (), {}
-    before = float(np.asarray(x.value))
+    before = np.asarray(x.value).copy()
     if entry == "var":
         x.transform(target, *args, **kwargs)
         gb.add(x)
@@ -64,7 +69,7 @@ def build(label, D, params, bij, v0, entry):
             warnings.simplefilter("ignore")
             gb.add(x)
             gb.transform(x, target, *args, **kwargs)
-    elif entry == "auto":
+    elif entry in ("auto", "auto-default"):
         x.auto_transform = True
         gb.add(x)
     model = gb.build_model()
@@ -75,6 +80,8 @@ def scenario(chk, label, D, params, bij, v0, entry):
     import liesel.goose as gs
     model, bvars, before = build(label, D, params, bij, v0, entry)
     name = f"{label} via {'Var.transform' if entry == 'var' else 'GraphBuilder.transform' if entry == 'builder' else 'auto_transform'}"
+    if entry == "auto-default":
+        name = f"{label.split('/')[0].strip()} / default bijector via auto_transform"
     # structural facts (concrete)
     problems = []
     vars_ = model.vars
@@ -88,9 +95,9 @@ def scenario(chk, label, D, params, bij, v0, entry):
             problems.append(f"parameter flag not moved (new={xt.parameter}, original={xo.parameter})")
         if not xt.has_dist:
             problems.append("new variable has no distribution")
-        after = float(np.asarray(xo.value))
-        if not np.isclose(after, before, rtol=1e-5, atol=1e-6):
-            problems.append(f"original variable's value changed from {before} to {after}")
+        after = np.asarray(xo.value)
+        if after.shape != before.shape or not np.allclose(after, before, rtol=1e-5, atol=1e-6):
+            problems.append(f"original variable's value changed from {before.tolist()} to {after.tolist()}")
     if problems:
         chk.violation(f"{name}:structure", f"[{name}] " + "; ".join(problems), dict(reproduced=True, note="read off the built model", observed=dict(problems=problems)))
         if "x_transformed" not in vars_:
@@ -98,28 +105,33 @@ def scenario(chk, label, D, params, bij, v0, entry):
     iface = gs.LieselInterface(model)
     st = model.state
     pv0 = {f"p_{k}": jnp.asarray(float(v)) for k, v in params.items()} | {k: jnp.asarray(float(v)) for k, v in bvars.items()}
-    t0 = jnp.asarray(float(np.asarray(model.vars["x_transformed"].value)))
+    t0 = jnp.asarray(np.asarray(model.vars["x_transformed"].value, dtype=np.float32))
+    per_obs = model.vars["x_transformed"].dist_node.per_obs
 
     def f(t, pvals):
         new = iface.update_state({"x_transformed": t} | pvals, st)
         base = D(**{k: pvals[f"p_{k}"] for k in params})
-        if bij[0] == "instance":
+        if entry == "auto-default":
+            b = base.experimental_default_event_space_bijector()
+        elif bij[0] == "instance":
             b = bij[1]()
         elif bij[0] == "class":
             b = bij[1](*[pvals[f"b_arg{i}"] for i in range(len(bij[2]))], **{k: pvals[f"b_{k}"] for k in bij[3]})
         else:
             b = base.experimental_default_event_space_bijector()
         fwd = b.forward(t)
-        return dict(lp=new["x_transformed_log_prob"].value, x=new["x_value"].value, ref_lp=base.log_prob(fwd) + b.forward_log_det_jacobian(t), ref_x=fwd,
+        ref_lp = base.log_prob(fwd) + b.forward_log_det_jacobian(t)
+        return dict(lp=new["x_transformed_log_prob"].value, x=new["x_value"].value, ref_lp=ref_lp if per_obs else jnp.sum(ref_lp), ref_x=fwd,
                     lprior=new["_model_log_prior"].value)
     pre = "".join(ch for ch in name if ch.isalnum())[:40] + entry
-    t = z3.Real(f"t_{pre}")
+    from ..jx2smt import sym_array
+    tsym = sym_array(f"t_{pre}", t0.shape)
     ps = {k: np.array(z3.Real(f"{k}_{pre}"), dtype=object).reshape(()) for k in pv0}
-    dom = {f"t_{pre}": (float(t0) - 0.4, float(t0) + 0.4)}
+    dom = {c.decl().name(): (float(v) - 0.4, float(v) + 0.4) for c, v in zip(cells(tsym), np.asarray(t0).reshape(-1))}
     for k, v in pv0.items():
         v = float(v)
         dom[f"{k}_{pre}"] = (0.8 * v, 1.2 * v) if v > 0 else ((1.2 * v, 0.8 * v) if v < 0 else (-0.2, 0.2))
-    enc = chk.note_enc(Enc(f"transformed model[{name}]", f, (t0, pv0), (np.array(t, dtype=object).reshape(()), ps), domain=dom))
+    enc = chk.note_enc(Enc(f"transformed model[{name}]", f, (t0, pv0), (tsym, ps), domain=dom))
     hyps = []
     for k, v in pv0.items():
         if float(v) > 0 and ("scale" in k or "rate" in k or "concentration" in k or k.startswith("b_")):
@@ -128,15 +140,14 @@ def scenario(chk, label, D, params, bij, v0, entry):
         hyps.append(cells(ps["p_low"])[0] < cells(ps["p_high"])[0])
     obs = []
     sch = ("pos", "inv", "unit", "recip")
-    obs.append(Obligation(f"[{name}] original variable = bijector image of the new variable, x = b(t)", [enc], lambda V: (hyps, cells(V.out["x"])[0] == cells(V.out["ref_x"])[0]),
+    obs.append(Obligation(f"[{name}] original variable = bijector image of the new variable, x = b(t)", [enc], lambda V: (hyps, all_eq(V.out["x"], V.out["ref_x"])),
                           signature=f"{name}:value", schemas=sch, timeout_s=60))
 
     def g_lp(V):
-        d = cells(V.out["lp"])[0] - cells(V.out["ref_lp"])[0]
         tol = z3.RealVal("1/100000")
-        return hyps, z3.And(d <= tol, d >= -tol)
+        return hyps, z3.And(*[z3.And(a - b <= tol, a - b >= -tol) for a, b in zip(cells(V.out["lp"]), cells(V.out["ref_lp"]))])
     obs.append(Obligation(f"[{name}] new variable's log-density at t = log p(b(t)) + log|db/dt|", [enc], g_lp, signature=f"{name}:density", schemas=sch, timeout_s=60))
-    obs.append(Obligation(f"[{name}] the transformed density is the model's log-prior term (flag moved)", [enc], lambda V: (hyps, cells(V.out["lprior"])[0] == cells(V.out["lp"])[0]),
+    obs.append(Obligation(f"[{name}] the transformed density is the model's log-prior term (flag moved)", [enc], lambda V: (hyps, cells(V.out["lprior"])[0] == sum(cells(V.out["lp"]))),
                           signature=f"{name}:prior", schemas=sch, timeout_s=60))
     chk.validate(enc)
     return obs
